@@ -151,7 +151,7 @@ _LEAVES_Q = [l for l in _LEAVES if l != 'ai_default_uninitialized_copy__pcE_pcE_
 _TMOVE_Q = ['svb_emplace_into_reallocation__pE_pcE', 'svb_shrink_to_size', 'svb_request_capacity', 'svb_shift_into_uninitialized']
 _GLOBAL = {'main': _LEAVES_Q + _CORE, 'tmove': _TMOVE_Q}
 QUICK = {
-    'C01': {'main': _CORE + _CORE2 + _PUB + ['sv_at__ul', 'sv_at__ul_c', 'sv_op_index__ul', 'sv_front__v', 'sv_back__v']},
+    'C01': {'main': _CORE + _CORE2 + _PUB + ['sv_at__ul', 'sv_at__ul_c', 'sv_op_index__ul', 'sv_front__v', 'sv_back__v', 'svb_emplace_at__pE_pcE', 'sv_emplace__svcit_pcE', 'sv_insert__svcit_pcE']},
     'C02': {'main': _CORE + _OBS + ['sv_shrink_to_fit'], 'tmove': _TMOVE_Q, 'n0': ['svb_append_element__pcE', 'sv_inlined'], 'pocma': ['svb_move_assign_default__psvb'], 'pocs': ['svb_swap_default']},
     'C03': _GLOBAL, 'C04': dict(_GLOBAL, main=_LEAVES_Q + _CORE + ['svb_move_assign_default__psvb'], pair_lt=['svb_move_assign_default__psvbM']), 'C06': dict(_GLOBAL, main=_LEAVES_Q + _CORE + ['svb_swap_default'], tmove=_TMOVE_Q + ['svb_insert_copies@tail_lt']),
     'C12': dict(tmove=['svb_append_element__pcE', 'svb_request_capacity'], kf_inline_gt_max=['svb_append_element__pcE'], main=['ai_uninitialized_fill__pE_pE_pcE', 'ai_external_range_length__pcE_pcE', 'svb_unchecked_calculate_new_capacity', 'svb_append_element__pcE', 'svb_append_copies', 'svb_request_capacity',
@@ -176,7 +176,7 @@ QUICK = {
                      'svb_copy_assign_default__pcsvb', 'svb_append_range__strong_pcE_pcE', 'svb_resize_with__ul', 'svb_insert_copies@trivial', 'svb_insert_copies@realloc',
                      'sv_reserve', 'sv_pop_back', 'sv_clear', 'sv_push_back__pcE']},
     'C11': {'main': ['svb_append_element__pcE', 'svb_append_copies', 'svb_emplace_into_current__pE_pcE', 'svb_emplace_into_reallocation__pE_pcE', 'svb_insert_copies@trivial',
-                     'svb_insert_copies@realloc', 'svb_insert_copies@tail_ge', 'ai_uninitialized_fill__pE_pE_pcE', 'sv_push_back__pcE', 'sv_emplace_back__pcE', 'sv_insert__svcit_ul_pcE']},
+                     'svb_insert_copies@realloc', 'svb_insert_copies@tail_ge', 'ai_uninitialized_fill__pE_pE_pcE', 'sv_push_back__pcE', 'sv_emplace_back__pcE', 'sv_insert__svcit_ul_pcE', 'sv_insert__svcit_pcE']},
     'C14': {'main': ['svb_unchecked_calculate_new_capacity', 'svb_append_element__pcE', 'svb_append_copies', 'svb_request_capacity', 'svb_emplace_into_reallocation__pE_pcE',
                      'svb_assign_with_copies', 'svb_copy_assign_default__pcsvb', 'svb_append_range__strong_pcE_pcE', 'svb_resize_with__ul', 'svb_insert_copies@realloc', 'sv_reserve'],
             'n0': ['svb_append_element__pcE', 'svb_unchecked_calculate_new_capacity']},
